@@ -189,6 +189,9 @@ func (cl *Cluster) Log() []*Request {
 	return append([]*Request{}, cl.log...)
 }
 
+// SetAfterRegister installs (or clears) the AfterRegister hook while nodes are serving.
+func (cl *Cluster) SetAfterRegister(f func(c *Conn)) { cl.mu.Lock(); cl.AfterRegister = f; cl.mu.Unlock() }
+
 func (cl *Cluster) LogLen() int { cl.mu.Lock(); defer cl.mu.Unlock(); return len(cl.log) }
 
 // Event sends an EVENT frame to every connection that REGISTERed (the proxy's control connection).
@@ -442,8 +445,11 @@ func (c *Conn) handle(rawHdr, rawBody []byte) {
 			c.registered = true
 			c.mu.Unlock()
 			_ = c.Send(header.Version, header.StreamId, &message.Ready{})
-			if cl.AfterRegister != nil {
-				cl.AfterRegister(c)
+			cl.mu.Lock()
+			after := cl.AfterRegister
+			cl.mu.Unlock()
+			if after != nil {
+				after(c)
 			}
 			return
 		case *message.Query:
